@@ -4,6 +4,7 @@ import DriverLib.IndexOps
 import DriverLib.ReduceOps
 import DriverLib.UnaryOps
 import DriverLib.MatMulOps
+import DriverLib.ConvOps
 open Lean
 namespace Drv
 open Gonnx
@@ -34,6 +35,7 @@ def runOp (op : String) (attrs : Json) (ins : List (Option DT)) : Answer :=
     else if isUnaryOp op then runUnaryOp op attrs ins
     else if isConstOp op then runConstOp op attrs ins
     else if isMatMulOp op then runMatMulOp op attrs ins
+    else if op == "Conv" then runConvOp attrs ins
     else { model := { status := "unmodelled" } }
 
 end Drv
